@@ -117,6 +117,40 @@ def growth_guards(ctx):
             ctx.bad(o, "add_at_tail at %s is not guarded by: %s" % (bad[0][0].line(), fmt_missing(bad[0][1])), loc=bad[0][0].line())
         else:
             ctx.ok(o, "%d growth site(s), all guarded" % len(sites))
+    # the tests run on every path to the growth: the two kind tests that open them are evaluated before every add_at_tail
+    # (directly, or inside a helper that is called on every such path)
+    o, fdd = ctx.require_fn("R2.limit-tests-on-every-path-to-growth", "T1", VRTF,
+                            "no path reaches add_at_tail without first asking whether the node is a service trip and whether it is a "
+                            "maintenance slot (the two questions that open the limit tests)")
+    if fdd is not None:
+        kinds = {ND("is_service"): "is_service", ND("is_maintenance"): "is_maintenance"}
+        problems, seen_sites = [], 0
+        for ins in calls_to(fdd, ADD_TAIL):
+            seen_sites += 1
+            have = set()
+            for c in fdd.body.calls():
+                if c is ins or not fdd.cfg.instr_dominates(c, ins):
+                    continue
+                ck = c.callee or ""
+                if ck in kinds:
+                    have.add(kinds[ck])
+                elif ck in ctx.prog.bodies and ck != ADD_TAIL and not ck.startswith("model::"):
+                    for h in hosts(ctx, ck, 1):
+                        for c2 in h.body.calls():
+                            if (c2.callee or "") in kinds:
+                                have.add(kinds[c2.callee])
+            miss = sorted(set(kinds.values()) - have)
+            if miss:
+                problems.append((ins, miss))
+        if not seen_sites:
+            ctx.undecided(o, "no add_at_tail call in the replacement function")
+        elif problems:
+            ins, miss = problems[0]
+            ctx.bad(o, "add_at_tail at %s can be reached without evaluating %s: on that path the %s is never compared with the vehicle count, "
+                    "so a formation can grow past it" % (ins.line(), " and ".join(miss),
+                                                         "formation limit" if "is_service" in miss else "track count"), loc=ins.line())
+        else:
+            ctx.ok(o, "%d growth site(s), both kind tests dominate each" % seen_sites)
     # comparator recogniser: growth is refused when count >= limit
     o, fdc = ctx.require_fn("R2.guards-refuse-at-limit", "T12", VRTF,
                             "a vehicle is refused when the formation already has as many vehicles as the limit / the slot as many as tracks (>=)")
@@ -348,6 +382,9 @@ def rules(ctx):
     limit_combination(ctx)
     depot_limits(ctx)
     flow_bounds(ctx)
+    # the limit a departure carries is the one of its own route segment (loader rules shared with C17)
+    from .C17 import loader_subset
+    loader_subset(ctx, ["create_service_trip."])
 
 
 def controls(ctx):
